@@ -534,3 +534,29 @@ Proof.
     exists s5. split; [|exact HL5]. rewrite E5. cbn [bind]. rewrite bytes_eqb_refl. cbv iota.
     destruct allow; reflexivity.
 Qed.
+
+(* the same with the fuel premise stated for the one state the three header tokens lead to *)
+Theorem parse_indirect_spelled_at v its a b id gen : spells v its ->
+  parse_u64 a = Ok id -> parse_u64 b = Ok gen ->
+  forall R allow s k s_end,
+    vdepth v <= MAX_DEPTH ->
+    Lexes s (IWord a :: IWord b :: IWord kw_obj :: its ++ IWord kw_endobj :: k) s_end ->
+    (forall s1 s2 s3, next s = Ok (a, s1) -> next s1 = Ok (b, s2) -> next s2 = Ok (kw_obj, s3) -> (length its <= fuel_for s3)%nat) ->
+    exists s1, parse_indirect_object R allow F_ANY s = Ok (id, gen, v, s1) /\ Lexes s1 k s_end.
+Proof.
+  intros Hs Ha Hb R allow s k s_end Hd HL Hfuel.
+  destruct (Lexes_word_inv _ _ _ _ HL) as [s1 [E1 HL1]].
+  destruct (Lexes_word_inv _ _ _ _ HL1) as [s2 [E2 HL2]].
+  destruct (Lexes_word_inv _ _ _ _ HL2) as [s3 [E3 HL3]].
+  unfold parse_indirect_object. rewrite E1. cbn [bind]. rewrite Ha. cbn [bind]. rewrite E2. cbn [bind]. rewrite Hb. cbn [bind].
+  unfold next_expect. rewrite E3. cbn [bind]. rewrite bytes_eqb_refl. cbv iota. cbn [bind].
+  destruct (parse_spelled _ _ Hs (fuel_for s3) R (Some (id, gen)) MAX_DEPTH s3 (IWord kw_endobj :: k) s_end
+              (Hfuel s1 s2 s3 E1 E2 E3) Hd HL3) as [s4 [E4 HL4]].
+  - apply follow_ok_nonint. reflexivity.
+  - reflexivity.
+  - unfold parse_ctx. rewrite E4. cbn [bind].
+    destruct (Lexes_word_inv _ _ _ _ HL4) as [s5 [E5 HL5]].
+    exists s5. split; [|exact HL5]. rewrite E5. cbn [bind]. rewrite bytes_eqb_refl. cbv iota.
+    destruct allow; reflexivity.
+Qed.
+
